@@ -67,10 +67,10 @@ RULE = ('case kinds fn / abs (fn for ABS) / powint / pv / ident / rand / randbet
         '>= 1 and (bit_length(|base|)-1)*exponent >= 1024 give #NUM! at once): for every bit length 2..70 of the base and g '
         'seeded ones in 71..1201 (g = 40*scale quick, 2000 thorough; both signs) the smallest exponent that meets it and the '
         'one below, up to 53 bits also the float twin of the base (which must NOT meet it) and PV with rate = base-1 (growth of '
-        'either sign), payment 1, at both exponents and at one up to 10^6 beyond with seeded payment / future value / type; 53 '
+        'either sign), payment 1, at both exponents and at one up to 10^6 beyond with seeded payment / future value / type; 66 '
         'fixed POWER pairs (bases up to +-10^400, exponents up to 10^18, 0 and negative exponents, bases 0 / 1 / -1 with huge '
-        'exponents), 19 pairs mixing logicals, integer text, floats and float text, g seeded int pairs (base up to 2^53, '
-        'exponent up to 10^18); 45 fixed PV calls (integer, logical, text and float rate x periods on both sides of the bound, '
+        'exponents, 13 pairs whose power is below 1e300 although bit_length*exponent > 1024), 19 pairs mixing logicals, integer text, floats and float text, g seeded int pairs (base up to 2^53, '
+        'exponent up to 10^18); 49 fixed PV calls (four with growth factors 2^900, 3^500, 10^250, 8^300 well inside the range; integer, logical, text and float rate x periods on both sides of the bound, '
         'periods up to 10^15+1 and negative, a non-number payment, future value 10^400). PV: 32 fixed calls (optional arguments '
         'omitted / blank, text and logical arguments, rate 0 / -1, 5000 periods, non-numbers, blank or list in a required '
         'position, 2 and 6 arguments) and p seeded ones (p = 600*scale quick, 80000 thorough): rate 0 in three spellings (15%), '
@@ -1105,7 +1105,10 @@ def gen_guard_cases(rng, n):
              (1, 10 ** 15), (-1, 10 ** 15 + 1), (-1, 10 ** 15), (0, 10 ** 15), (0, 1), (2, 0), (2 ** 60, 0), (2, -1024), (2, -5000),
              (10 ** 400, 1), (-10 ** 400, 1), (10 ** 400, 0), (2 ** 1024, 1), (-2 ** 1024, 1), (2 ** 1024 - 1, 1), (2 ** 1023, 1),
              (10 ** 308, 1), (2 ** 512, 2), (2 ** 512 - 1, 2), (-2 ** 512, 2), (10 ** 154, 2), (10 ** 155, 2), (2 ** 341, 3),
-             (2 ** 342, 3), (10 ** 30, 34), (10 ** 30, 35)]
+             (2 ** 342, 3), (10 ** 30, 34), (10 ** 30, 35),
+             # well inside the range (the power is below 1e300, where the oracle judges) although bit_length * exponent > 1024
+             (2, 513), (2, 900), (3, 400), (3, 518), (7, 300), (7, 342), (10, 257), (10, 300), (36, 150), (1000, 99),
+             (2 ** 20, 45), (-2, 901), (-10, 299)]
     for a, b in fixed:
         power(a, b)
     # logicals and integer text are Python ints for the guard; floats (even integral ones) are not
@@ -1119,7 +1122,9 @@ def gen_guard_cases(rng, n):
                 (1.0, 1023, 1), (1, 1023.0, 1), (35, 10 ** 15, 1), (1, 10 ** 15, 1), (-3, 10 ** 15, 1), (0, 10 ** 15, 1),
                 (0, 10 ** 15, 1, 5), (-2, 10 ** 15, 1), (-2, 10 ** 15 + 1, 1), (-1, 10 ** 15, 1), (1, 0, 1), (1, -1000, 1),
                 (1, -5000, 1), (255, 147, 1), (255, 146, 1), (2 ** 20 - 1, 52, 1), (2 ** 20 - 1, 51, 1), (1, 1024, 'x'),
-                (1, 1024, {'e': '#N/A'}), (1, 1024, 1, 10 ** 400), (1, 1024), (9, 400, 1), (9, 341, 1), (9, 342, 1)]
+                (1, 1024, {'e': '#N/A'}), (1, 1024, 1, 10 ** 400), (1, 1024), (9, 400, 1), (9, 341, 1), (9, 342, 1),
+                # growth factors well inside the range: 2^900, 3^500, 10^250, 8^300
+                (1, 900, 1), (2, 500, 1), (9, 250, 1), (7, 300, -100, 5, 1)]
     for args in pv_fixed:
         pv(*args)
     for L in list(range(1, 70)) + [rng.randint(70, 1200) for _ in range(n)]:
